@@ -28,6 +28,7 @@ from vlib.core import PropertyViolation, Recorder, hyp_search, violation_record,
 
 PROPERTY = "C09"
 RULE = (
+    "(the generator receives through an unpacking assignment and, per instance, may absorb GeneratorExit) "
     "history = list (<=20 quick / <=45 thorough ops) over {enter overlay k (5 specs incl. ga>fc>u, fc>u, "
     "fb>fc>u, ga>u, ga(w)>fc>u), leave innermost overlay, create generator ga(plan), next i, close i, drop i, "
     "driver call of a plan over fa/fb/fc} x driver placement (top level / inside instrumented fd under an "
